@@ -3,15 +3,21 @@ import TinyVerif.Proofs.DlIndDvTop
 /-!
 # Foundation for the steps that change the SEGMENT LIST (tag `sg_`)
 
-`struct_window` (`DlIndBase.lean`) keeps `segs` fixed.  This file has what `sys_alloc_place`,
-`add_segment`, `prepend_alloc`, `trim_top`, `releaseLoop` need in addition:
+`struct_window` (`DlIndBase.lean`) keeps `segs` fixed.  This file has what `sys_alloc_place`, `add_segment`,
+`prepend_alloc`, `trim_top`, `releaseLoop` need in addition (the specs themselves are in `DlIndSys.lean`):
 
-1. membership forms of `FenceOk` / `User`, the bridge `AllocAt ⟹ Alloc` for an arbitrary final state,
-   preservation of `RecsOk` / `FenceOk` / `TailOk` by the common tail of `sys_alloc` (`top` split);
-2. the fresh mapping: no header of a well-formed state lies in a region disjoint from all segments
-   (`sg_fresh_*`), `segsOk` of changed segment lists (`sg_segsDisjoint_*`, `replaceSeg`);
-3. `tiles` with a moving segment end (`sg_tiles_prefix_end`), `segEnts` of a segment whose bounds changed;
-4. `init_top` as an equation on the header table (`sg_init_top_eq`).
+1. membership forms of `FenceOk` / `User` (`SgFenceTab`, `sg_user_iff_mem`), the bridge `AllocAt ⟹ Alloc` for an
+   arbitrary final state (`sg_alloc_of_allocAt`), the common tail of `sys_alloc` (`sg_top_split`);
+2. `sg_sinv_same` (what `SInv` reads);  3. `init_top` as two header writes (`sg_init_top_ok`);
+4. `sg_fresh_ents` (no header in a region disjoint from all segments), `tiles` with a moving segment end,
+   `sg_retop`: the head segment grows / shrinks at its end (`sys-extend`, `trim_top`);
+5. a segment's headers are a contiguous block of the sorted table (`sg_seg_split`), disjoint segment lists;
+6. `sg_release_seg`: a whole non-head segment disappears (`releaseLoop`);
+7. sorted tables as SETS: `sg_entsOk_ext`, `sg_putEnt_tab`, `sg_modEnt_tab`, `sg_writeHead_tab`, … — the header
+   writes described by membership, so that no list positions have to be tracked;
+8. the fencepost loop by induction on the fuel (`sg_fences`);
+9. `sg_addseg_core`: the invariant of the state `add_segment` ends in, from a description of its table;
+10. `sg_prepend_mid`: a segment grows at its start, with two in-use chunks in front of its old first header.
 -/
 namespace TinyVerif.Dl
 
